@@ -149,9 +149,17 @@ def eval_fit(case):
         warnings.simplefilter("ignore")
         try:
             guess = {"inside": p_i * 0.95, "below": 0.5 * np.nanmax(press), "above": 12500.0}[case.get("guess", "inside")]
+            user = None
+            if case.get("params"):  # limits declared by the caller through params=; the data's optimum lies outside
+                from lmfit import Parameters  # noqa: PLC0415
+
+                user = Parameters()
+                user.add("tau", value=2.5 * tau, min=2.0 * tau, max=3.0 * tau)
+                user.add("M", value=0.5 * M, min=0.4 * M, max=0.6 * M)
+                user.add("p_initial", value=p_i + 350.0, min=p_i + 300.0, max=p_i + 400.0)
             result = fit_production_pressure(prod, pvt, guess, filter_window_size=case["window"],
                                              pressure_imax=12000.0, inplace_max=1e6,
-                                             filter_zero_prod_days=case["filter"], n_iter=case["n_iter"])
+                                             filter_zero_prod_days=case["filter"], n_iter=case["n_iter"], params=user)
         except Exception as e:  # noqa: BLE001
             return {"violations": [V("fit/raises", f"{type(e).__name__}: {e}", case=case)], "outcome": "raise"}
     if not prod.equals(snap):
@@ -182,6 +190,14 @@ def eval_fit(case):
     # limits: captured from the Parameters handed to the minimiser
     lim = cap["params"]
     pmax_sched = np.nanmax(p_used) if len(p_used) else np.nan
+    if case.get("params"):
+        declared = {"tau": (2.0 * tau, 3.0 * tau), "M": (0.4 * M, 0.6 * M), "p_initial": (p_i + 300.0, p_i + 400.0)}
+        for name, (lo, hi) in declared.items():
+            v = float(result.params[name].value)
+            if not lo <= v <= hi:
+                viol.append(V(f"limits/declared-by-caller/{name}", f"fitted {name} = {v!r} outside the limits [{lo}, {hi}] "
+                              "declared through params=", case=case, observed=v, expected=[lo, hi]))
+        return {"violations": viol[:3], "outcome": "fit:params", "key": ("fp", n, tau, M, p_i, case["sched"], case["n_iter"])}
     if "p_initial" in lim:
         _, lo, hi = lim["p_initial"]
         if not (lo >= pmax_sched - 1e-9 and hi <= 12000.0 + 1e-9):
@@ -228,6 +244,8 @@ def cases(tier, seed):
                     "n_iter": it, "dirty": bool(flt)})  # filter off is only defined on clean data
         if w is None and it == iters[-1]:  # a starting guess outside the admissible range must not widen it
             out += [dict(out[-1], guess="below"), dict(out[-1], guess="above")]
+            if flt:
+                out.append(dict(out[-1], guess="inside", params=True, n_iter=12))
     return out
 
 
